@@ -20,12 +20,14 @@ class Run:
     """A real interpreter for an abstract chart plus the projection of its state."""
 
     def __init__(self, c, variant='api', pool='plain', seed=0, ignore_contract=False, metas=True,
-                 monitor=False, sc=None, names=None, rename=None, reimport=False, copy_into=False):
+                 monitor=False, sc=None, names=None, rename=None, reimport=False, copy_into=False,
+                 manual_execute=False):
         self.c = c
         if sc is None:
             sc, names = realize.build(c, variant, pool, seed)
         if rename is not None:
             sc, names = realize.rename_some(sc, names, rename)
+        self.manual_execute = manual_execute
         self.host_only = set()
         if copy_into:
             sc, names, self.host_only = realize.plug_into_host(sc, names, gc_root=realize.gc.root(c))
@@ -168,6 +170,23 @@ class Run:
                     self.returned.append((ms, json.dumps(o['steps'])))
                     if len(self.returned) > 6:
                         self.returned.pop(0)
+            elif op == 'execute':
+                mx = o['ev'] if o['ev'] > 0 else -1
+                if self.manual_execute:      # the twin: what repeated execute_once calls return
+                    res = []
+                    while True:
+                        m1 = it.execute_once()
+                        if m1 is None:
+                            break
+                        res.append(m1)
+                        if 0 < mx == len(res):
+                            break
+                else:
+                    res = it.execute(max_steps=mx)
+                o['some'] = bool(res)
+                o['steps'] = [st for m1 in res for st in self.flat_step(m1)]
+                o['eidx'] = len(res)
+                o['rtime'] = res[-1].time if res else it.time
             else:
                 raise ValueError(op)
         except sx.ContractError as e:
